@@ -43,12 +43,12 @@ static void failing_query(Query *q) {
   else if (r < 9) { q->kind = 1; snprintf(q->s, sizeof q->s, "%s", BAD[rndint(3, 6)]); }
   else { q->kind = rndint(5, 6); q->ia[0] = (int[]){0, -3, 120, 4000}[rndint(0, 3)]; snprintf(q->s, sizeof q->s, "%s", BAD[rndint(0, 1)]); }
 }
-/* c17 <threads> <calls per thread> <pool size> [control | errors | family <first fn> <step>] */
+/* c17 <threads> <calls per thread> <pool size> [control | errors | files | family <first fn> <step>] */
 int cmd_c17(int argc, char **argv) {
   int T = argc > 0 ? atoi(argv[0]) : 8; ncalls = argc > 1 ? atoi(argv[1]) : 1000; npool_q = argc > 2 ? atoi(argv[2]) : 400; control = argc > 3 && !strcmp(argv[3], "control");
   if (T > MAXT) T = MAXT;
   pool = calloc(npool_q, sizeof *pool); ref = calloc(npool_q, sizeof *ref);
-  int errors_only = argc > 3 && !strcmp(argv[3], "errors"), family = argc > 5 && !strcmp(argv[3], "family");
+  int errors_only = argc > 3 && !strcmp(argv[3], "errors"), family = argc > 5 && !strcmp(argv[3], "family"), files_only = argc > 3 && !strcmp(argv[3], "files");
   int nf = 0; while (API_TABLE[nf].name) nf++;
   int f_first = family ? atoi(argv[4]) : 0, f_step = family ? atoi(argv[5]) : nf + 1; long total = 0;
   /* "family" mode: one phase per API function (first, first+step, ...): every thread hammers the same function with a small pool of argument tuples,
@@ -56,6 +56,7 @@ int cmd_c17(int argc, char **argv) {
   for (int fsel = f_first; fsel < (family ? nf : 1); fsel += f_step) {
   for (int i = 0; i < npool_q; i++) {
     if (errors_only) failing_query(&pool[i]); else random_query(&pool[i]);
+    if (files_only) { memset(&pool[i], 0, sizeof pool[i]); pool[i].kind = 14; pool[i].ia[0] = i; }      /* every thread reads the same crystal file into an array of its own */
     if (family) { Query *q = &pool[i]; const ApiFn *f = &API_TABLE[fsel]; int r = rndint(0, 2); q->kind = 0; q->fn = fsel; q->ia[0] = rndint(0, 11) ? rndint(1, 98) : rndint(-1, 121);
       q->ia[1] = r == 0 ? rndint(f->mlo, f->mhi) : r == 1 ? f->mhi - rndint(0, 7) : f->mlo + rndint(0, 7); }
   }
